@@ -271,7 +271,7 @@ namespace hist
         // life cycle; all return false if unsupported
         virtual bool   move_construct(bool above)            = 0;
         virtual bool   move_assign(bool above, int variant)  = 0;
-        virtual bool   swap_with_fresh(bool above)           = 0;
+        virtual bool   swap_with_fresh(bool above, int variant) = 0;
         virtual size_t zombies()                             = 0;
         virtual void   destroy_zombie(size_t i)              = 0;
         virtual bool   assign_to_zombie(size_t i)            = 0;
@@ -320,7 +320,7 @@ namespace hist
                 return false;
             void* st       = Slab::get().object_storage(above, sizeof(T), alignof(T));
             int   o2       = ctx_.new_owner();
-            T*    n        = self().fresh(st, o2);
+            T*    n        = self().fresh_other(st, o2, variant);
             if (variant % 2 == 1)
             {
                 try
@@ -337,13 +337,13 @@ namespace hist
             self().after_move();
             return true;
         }
-        bool swap_with_fresh(bool above) override
+        bool swap_with_fresh(bool above, int variant) override
         {
             if (!movable)
                 return false;
             void* st = Slab::get().object_storage(above, sizeof(T), alignof(T));
             int   o2 = ctx_.new_owner();
-            T*    n  = self().fresh(st, o2);
+            T*    n  = self().fresh_other(st, o2, variant);
             using std::swap;
             swap(*cur_, *n);
             spares_.push_back(cur_); // valid object that now holds the fresh state
@@ -396,6 +396,12 @@ namespace hist
         }
         void after_move() {}
         void use_a_little(T&) {}
+        // target of a move assignment / partner of a swap: pools and collections override this to
+        // build some of them with *different* parameters (node size, number of buckets) than the source
+        T* fresh_other(void* st, int owner, int)
+        {
+            return self().fresh(st, owner);
+        }
         Ctx&            ctx_;
         T*              cur_ = nullptr;
         std::vector<T*> zombies_, spares_;
